@@ -154,6 +154,18 @@ def step (st : St) (toks : List String) : St × String :=
           | .ok .dropped => "dropped"
           | .error e => "exn=" ++ e.name)
       | _, _ => "bad-op")
+  | ["bcast", lid, hdr, src, hex] =>
+    (st, match lid.toNat?, Proto.ofHex? hdr, Proto.ofHex? src, Proto.ofHex? hex with
+      | some l, some h, some a, some d =>
+        (match lookupListener st.reg.table l with
+         | some (.community o) => outStr (bcastDatagramReceived (worstEnv st.fx) (st.net.lookup a).1 h false l o d)
+         | _ => "bad-op")
+      | _, _, _, _ => "bad-op")
+  | ["exitentry", v6, mapped, arity] =>
+    (st, match arity.toNat? with
+      | some ar => (match exitEntry { exitBT := true, exitIPv8 := true, pfx := [] } false (v6 == "1") (mapped == "1") ar [] with
+                    | .ok _ => "ok" | .error e => "exn=" ++ e.name)
+      | none => "bad-op")
   | ["cellhdr", hex] =>
     (st, match Proto.ofHex? hex with
       | some d => (match cellFromBin d with
